@@ -22,7 +22,7 @@ impl Check for C15 {
         800
     }
     fn cases(&self, tier: Tier) -> u64 {
-        tier.pick(8_000, 600_000)
+        tier.pick(40_000, 1_500_000)
     }
     fn run_case(&self, src: &mut Src, obs: &mut Obs) -> Result<(), Fail> {
         let two_d = src.chance(1, 4);
